@@ -220,7 +220,7 @@ func (db *DB) loadSchema(of Object) (s *Schema, err error) {
 	}
 
 	if stat.Mode().IsRegular() {
-		if err = unmarshalJsonFile(path, &s); err != nil {
+		if err = unmarshalJsonFile(path, &s, false); err != nil {
 			return
 		}
 
@@ -414,7 +414,7 @@ func (db *DB) get(in Object) (out Object, err error) {
 	}
 
 	path = filepath.Join(db.oDir(in), s.filename(in))
-	err = unmarshalJsonFile(path, in)
+	err = unmarshalJsonFile(path, in, s.Compress)
 	out = in
 
 	// we cache the object only if it has been read successfully
